@@ -26,6 +26,7 @@ import (
 	"runtime"
 	"runtime/debug"
 	"runtime/pprof"
+	"slices"
 	"strconv"
 	"strings"
 	"time"
@@ -406,7 +407,36 @@ This command wraps "go %s". Below is its help:
 	}
 	sharedCache.BinaryContentID = decodeBuildIDHash(splitContentID(binaryBuildID))
 
-	if err := appendListedPackages(args, true); err != nil {
+	// Only the package arguments are handed to 'go list'.
+	listArgs := args
+	switch command {
+	case "run":
+		// "go run" takes a single package or a list of .go files;
+		// any further arguments belong to the program being run.
+		n := 0
+		for n < len(args) && strings.HasSuffix(args[n], ".go") {
+			n++
+		}
+		if n == 0 && len(args) > 0 {
+			n = 1
+		}
+		listArgs = args[:n]
+	case "test":
+		// "go test" accepts further flags after the packages,
+		// up to -args, which starts the flags for the test binary.
+		n := 0
+		for n < len(args) && !strings.HasPrefix(args[n], "-") {
+			n++
+		}
+		listArgs = args[:n]
+		trailing := args[n:]
+		if i := slices.Index(trailing, "-args"); i >= 0 {
+			trailing = trailing[:i]
+		}
+		extra, _ := filterForwardBuildFlags(trailing)
+		sharedCache.ForwardBuildFlags = append(sharedCache.ForwardBuildFlags, extra...)
+	}
+	if err := appendListedPackages(listArgs, true); err != nil {
 		return nil, err
 	}
 
